@@ -62,6 +62,8 @@ def area(triangles=None, crosses=None):
     """
     if crosses is None:
         crosses = cross(np.asanyarray(triangles, dtype=np.float64))
+    else:
+        crosses = np.asanyarray(crosses, dtype=np.float64)
     if len(crosses.shape) == 1:
         # support 2D triangles
         return np.abs(crosses) / 2.0
@@ -244,8 +246,14 @@ def mass_properties(
 
     if crosses is None:
         crosses = cross(triangles)
+    else:
+        crosses = np.asanyarray(crosses, dtype=np.float64)
     if density is None:
         density = 1.0
+    if center_mass is not None:
+        # used below with fancy indexing and squared: a list would raise
+        # and a float32 or integer array would compute in its own precision
+        center_mass = np.asanyarray(center_mass, dtype=np.float64)
 
     # these are the subexpressions of the integral
     # this is equvilant but 7x faster than triangles.sum(axis=1)
